@@ -283,16 +283,24 @@ def _build_model(ms, env: Env, open_models: dict):
             else:
                 lines.append(f"    {f['n']}: {pfx}_T{i} = {pfx}_D{i}")
     elif kind == "typeddict":
-        lines.append(f"class {cname}(TypedDict):")
-        for i, f in enumerate(fields):
-            if f.get("d") is None:
-                lines.append(f"    {f['n']}: {pfx}_T{i}")
-            else:
-                lines.append(f"    {f['n']}: NotRequired[{pfx}_T{i}]")
+        if ms.get("opts") == "total=False":   # the other spelling of the same model: optional by default, Required marked
+            lines.append(f"class {cname}(TypedDict, total=False):")
+            for i, f in enumerate(fields):
+                if f.get("d") is None:
+                    lines.append(f"    {f['n']}: Required[{pfx}_T{i}]")
+                else:
+                    lines.append(f"    {f['n']}: {pfx}_T{i}")
+        else:
+            lines.append(f"class {cname}(TypedDict):")
+            for i, f in enumerate(fields):
+                if f.get("d") is None:
+                    lines.append(f"    {f['n']}: {pfx}_T{i}")
+                else:
+                    lines.append(f"    {f['n']}: NotRequired[{pfx}_T{i}]")
     elif kind == "attrs":
         import attrs  # noqa: PLC0415
         ns["attrs"] = attrs
-        lines.append("@attrs.define")
+        lines.append(f"@attrs.define({ms.get('opts', '')})")
         lines.append(f"class {cname}:")
         for i, f in enumerate(fields):
             d = f.get("d")
@@ -513,6 +521,13 @@ def lax_safe(spec) -> bool:
 
 # =========================================================================================== type strategies
 FIELD_NAMES = ["a", "b", "c", "value", "data", "from_", "id", "x1", "name", "items_"]
+WIDE_FIELD_NAMES = [f"w{i}" for i in range(20)]
+MODEL_OPTS = {
+    "dataclass": ["", "", "", "slots=True", "frozen=True", "kw_only=True", "kw_only=True, slots=True, frozen=True"],
+    "attrs": ["", "", "", "frozen=True", "kw_only=True", "slots=False", "kw_only=True, slots=False"],
+    "typeddict": ["", "", "total=False"],
+    "namedtuple": [""],
+}
 
 SCALAR_TAGS_COMMON = ["int", "str", "bool", "float", "none"]
 SCALAR_TAGS_RICH = ["decimal", "fraction", "complex", "bytes", "bytearray", "bytestring", "bytesio", "iobytes",
@@ -762,12 +777,16 @@ class TypeGen:
     def _model(draw, self, d, counter, open_models):  # noqa: N805
         name = f"M{next(counter)}"
         kind = draw(st.sampled_from(self.model_kinds))
-        nf = draw(st.integers(0 if kind != "namedtuple" else 1, 4))
-        names = draw(st.lists(st.sampled_from(FIELD_NAMES), min_size=nf, max_size=nf, unique=True))
+        # one model in sixteen is wide (5..24 scalar fields): argument lists, generated variable numbering and error
+        # lists beyond the handful of fields every other model has
+        wide = draw(st.integers(0, 15)) == 0
+        nf = draw(st.integers(5, 24)) if wide else draw(st.integers(0 if kind != "namedtuple" else 1, 4))
+        names = draw(st.lists(st.sampled_from(FIELD_NAMES + WIDE_FIELD_NAMES if wide else FIELD_NAMES),
+                              min_size=nf, max_size=nf, unique=True))
         inner_open = (*open_models, name) if kind != "typeddict" or True else open_models
         fields = []
         for fn in names:
-            t = draw(self._t(d - 1, counter, inner_open, False))
+            t = draw(self._t(0 if wide else d - 1, counter, inner_open, False))
             fields.append({"n": fn, "t": t, "d": None})
         # defaults; one model in five tries to give every field a default: only then the FIRST key of the model's mapping
         # is an optional one (required fields come first), which takes a path of its own through the generated loader
@@ -783,7 +802,13 @@ class TypeGen:
         req = [f for f in fields if f["d"] is None]
         opt = [f for f in fields if f["d"] is not None]
         fields = req + opt
-        return ["model", {"name": name, "kind": kind, "fields": fields}]
+        ms = {"name": name, "kind": kind, "fields": fields}
+        # declaration options that must not change behaviour: they change how the class is introspected (parameter kinds,
+        # __slots__ instead of __dict__, __setattr__ of frozen classes, Required / NotRequired markers)
+        opts = draw(st.sampled_from(MODEL_OPTS[kind]))
+        if opts:
+            ms["opts"] = opts
+        return ["model", ms]
 
 
 def union_case_dumpable(c) -> bool:
